@@ -58,7 +58,7 @@ def gen_dname(rng, used, auto_bat=False):
             n = rng.choice([1, 2, 3, 5, 7, 8, 8])
             name = "".join(rng.choice(DNAME) for _ in range(n))
             if rng.random() < 0.05:
-                name = rng.choice("@+=~#%&!^{}[]()$;'") + name[1:]
+                name = rng.choice("@+=~#%&!^{}[]()$;'*?,") + name[1:]
             if name.startswith("-"):
                 name = "X" + name[1:]
             ext = rng.choice(DEXTS)
@@ -425,6 +425,6 @@ def gen_third_party(rng, is_fd=None, nsides=None, max_files=6):
         # sometimes all 112 entries were used once and some were deleted since: no never-used entry is left
         ndel = rng.choice([0, 0, 1, 3]) if rng.random() > 0.08 else 112 - len(files)
         sides.append({"files": files, "deleted": ndel, "extra_reserved": rng.sample([0, 1, 2, 80, 159], rng.choice([0, 0, 1, 2])),
-                      "filler": rng.choice([0xE5, 0x00, 0xFF, 0x41]), "fat0": rng.choice([0, 0, 0xFF]), "fat_tail": rng.choice([0, 0, 0xFF]),
+                      "filler": rng.choice([0xE5, 0x00, 0xFF, 0x41]), "fat0": rng.choice([0, 0, 0xFF, 0xE5, rng.randrange(256)]), "fat_tail": rng.choice([0, 0, 0xFF, 0xE5, 0xA0, 0xC9, rng.randrange(256)]),
                       "order": rng.choice(["asc", "desc", "random"]), "frag": rng.random() < 0.5, "spread": rng.choice([False, True, "dense", "dense"])})
     return {"is_fd": is_fd, "nsides": nsides, "seed": rng.randint(0, 1 << 30), "sides": sides}
